@@ -161,6 +161,22 @@ func c20Run(w *W, removals bool) {
 		})
 		w.Fault("concurrent-remove")
 	}
+	unseen := func(r *iterRec) []int {
+		var out []int
+		for _, a := range added {
+			gone := false
+			for _, x := range removed {
+				gone = gone || x == a
+			}
+			for _, x := range r.yielded {
+				gone = gone || x == a
+			}
+			if !gone {
+				out = append(out, a)
+			}
+		}
+		return out
+	}
 	simrt.Quiesce()
 	if removals {
 		// "may omit removed items": an item that was never removed must not be
@@ -168,22 +184,6 @@ func c20Run(w *W, removals bool) {
 		// the container gets one more chance (a further item is added, so even an
 		// implementation that only looks again on the next wake-up delivers it);
 		// if it still has not yielded the item it has skipped it for good.
-		unseen := func(r *iterRec) []int {
-			var out []int
-			for _, a := range added {
-				gone := false
-				for _, x := range removed {
-					gone = gone || x == a
-				}
-				for _, x := range r.yielded {
-					gone = gone || x == a
-				}
-				if !gone {
-					out = append(out, a)
-				}
-			}
-			return out
-		}
 		probe := false
 		for _, r := range its {
 			if r.blocking && r.state == 1 && len(unseen(r)) > 0 {
@@ -249,6 +249,14 @@ func c20Run(w *W, removals bool) {
 				}
 			}
 			if removals {
+				// "finish with io.EOF once the container is closed" and "may omit
+				// removed items" - no others: an iterator that ended because of
+				// Close has yielded everything that was added and never removed
+				if final && endMode == 0 && r.blocking && r.state == 2 && !r.canceled && errors.Is(r.err, io.EOF) {
+					if u := unseen(r); len(u) > 0 {
+						w.Violate("skipped-items", "skipped-items:"+v.name+":after-removals", "%s: iterator %d finished (%v) having yielded %v; %v were added, never removed (removed: %v) and never yielded", phase, i, r.err, r.yielded, u, removed)
+					}
+				}
 				continue
 			}
 			for k, x := range r.yielded {
